@@ -16,7 +16,14 @@
               service uuid / version)
               => predicted DIFFERENT CanonId iff the edited definition is the root or transitively
                  referenced by it, EQUAL otherwise (the id depends on nothing else)
-   With Deep = TRUE the edits are additionally applied on top of the combo presentation. *)
+   With Deep = TRUE the edits are additionally applied on top of the combo presentation.
+
+   Generic custom types (Rust tuples, arities 1 .. 4 over built-ins and definitions; SchemaModel!Tup) occur in
+   the universes "tuples" (a root with two different tuples of one arity - pmem / rord / combo give both
+   orders; Leaf reachable only through one of two same-arity tuples, in both field orders - the edits of Leaf
+   must change the ids of H1 / H2 / T3), "tuplenest" (tuples in tuples, below option / vec / map, in a
+   service, recursion through a tuple) and in the pool of the seeded-random universes.  Fields of tuple type
+   have the additional edit sites m.telem / m.tarity / m.tswap. *)
 EXTENDS SchemaModel, Json, IOUtils
 
 CONSTANTS Deep,   \* TRUE: the edits are also applied below the combo presentation
@@ -26,6 +33,8 @@ Seed == IF "SEED" \in DOMAIN IOEnv /\ IOEnv.SEED # "" THEN atoi(IOEnv.SEED) ELSE
 
 Str == Lf("string")
 U8 == Lf("u8")
+U32 == Lf("u32")
+U64 == Lf("u64")
 
 BM == "bookmarks_v2"
 UBookmarks == Universe(<<
@@ -98,18 +107,47 @@ UTwoSchemas == Universe(<<
   TStruct("x", "B", <<Field("w", "1", FALSE, U8)>>, <<>>),
   TStruct("y", "B", <<Field("w", "1", FALSE, U8)>>, <<>>) >>)
 
+(* generic custom types: tuples.  Pair: two different tuples of arity 2 below one root.  H1, H2: Leaf is reachable
+   only through one of two tuples of arity 2, which is the first resp. the second field.  T3: the same with
+   arity 3, in an enum.  One: arities 1 and 4, a tuple over a tuple-free definition twice. *)
+UTuples == Universe(<<
+  TStruct("s7", "Pair", <<Field("a", "1", TRUE, Tup(<<U32, Str>>)), Field("b", "2", TRUE, Tup(<<U32, U64>>))>>, <<>>),
+  TStruct("s7", "H1", <<Field("a", "1", TRUE, Tup(<<U32, Ext("s7", "Leaf")>>)), Field("b", "2", TRUE, Tup(<<U32, Str>>))>>, <<>>),
+  TStruct("s7", "H2", <<Field("a", "1", TRUE, Tup(<<U32, Str>>)), Field("b", "2", FALSE, Tup(<<U32, Ext("s7", "Leaf")>>))>>, <<"more">>),
+  TStruct("s7", "Leaf", <<Field("x", "1", TRUE, U32)>>, <<>>),
+  TEnum("s7", "T3", <<Var("A", "1", <<Tup(<<U8, Str, Ext("s7", "Leaf")>>)>>), Var("B", "2", <<Tup(<<U8, Str, Lf("bool")>>)>>),
+                      Var("C", "3", <<Tup(<<Str, U8>>)>>), Var("D", "4", <<Tup(<<U8, Str>>)>>)>>, <<>>),
+  TStruct("s7", "One", <<Field("a", "1", FALSE, Tup(<<Ext("s7", "Leaf")>>)), Field("b", "2", FALSE, Tup(<<U8, U8, Ext("s7", "Leaf"), Ext("s7", "Leaf")>>)),
+                         Field("c", "3", FALSE, Tup(<<Str>>))>>, <<>>) >>)
+
+\* tuples in tuples and below built-in generics, in a service, recursion through a tuple; Leaf2 is reachable from N
+\* only through the inner tuple of an inner tuple
+UTupNest == Universe(<<
+  TStruct("s8", "N", <<Field("t", "1", TRUE, Tup(<<Tup(<<U8, Str>>), Tup(<<U8, Ext("s8", "Leaf")>>), U32>>)),
+                       Field("o", "2", FALSE, Un("option", Tup(<<Str, Tup(<<Str, Ext("s8", "Leaf2")>>)>>)))>>, <<>>),
+  TNewtype("s8", "W", Un("vec", Tup(<<Ext("s8", "N"), Un("option", Un("box", Ext("s8", "W")))>>))),
+  TStruct("s8", "Leaf", <<Field("x", "1", FALSE, U8)>>, <<>>),
+  TEnum("s8", "Leaf2", <<Var("V", "1", <<>>), Var("W", "2", <<Tup(<<U8, U8>>)>>)>>, <<"Other">>),
+  TService("s8", "Svc", "6f1d0a3c-53c1-4c3c-9f44-0d0f5a6f7c11", "1", <<
+      TFn("f", "1", <<Tup(<<U8, U8>>)>>, <<Tup(<<U8, Ext("s8", "Leaf")>>)>>, <<Tup(<<Str, Ext("s8", "Leaf2")>>)>>),
+      TFn("g", "2", <<MapT(Str, Tup(<<Ext("s8", "Leaf"), Ext("s8", "Leaf")>>))>>, <<>>, <<>>) >>,
+    <<TEv("e", "1", <<Tup(<<Str, Str, Ext("s8", "W")>>)>>)>>, <<>>, <<>>) >>)
+
 (* seeded-random universes: 3..5 definitions (structs and enums) whose member types are drawn from a pool
-   of built-ins, generics over built-ins and (possibly recursive) references to the other definitions *)
+   of built-ins, generics over built-ins, (possibly recursive) references to the other definitions and tuples
+   of arity 2 and 3 over those *)
 RandSchema(k) == "r" \o ToString(k)
 RandDefName(i) == "R" \o ToString(i)
 RandType(k, n, salt) ==
   LET r == Rnd3(Seed, 97 * k + 5, salt)
-      d == Ext(RandSchema(k), RandDefName(((r \div 16) % n) + 1))
-      c == r % 16 IN
+      d == Ext(RandSchema(k), RandDefName(((r \div 22) % n) + 1))
+      c == r % 22 IN
   CASE c = 0 -> U8 [] c = 1 -> Str [] c = 2 -> Lf("bool") [] c = 3 -> Lf("i64") [] c = 4 -> Lf("uuid")
     [] c = 5 -> Un("option", Str) [] c = 6 -> Un("vec", U8) [] c = 7 -> MapT(Str, Lf("u32"))
     [] c = 8 -> d [] c = 9 -> Un("option", Un("box", d)) [] c = 10 -> Un("vec", d) [] c = 11 -> MapT(Str, d)
-    [] c = 12 -> ResT(d, Str) [] c = 13 -> Un("option", d) [] c = 14 -> ArrL(d, "2") [] OTHER -> Un("set", Lf("i32"))
+    [] c = 12 -> ResT(d, Str) [] c = 13 -> Un("option", d) [] c = 14 -> ArrL(d, "2") [] c = 15 -> Un("set", Lf("i32"))
+    [] c = 16 -> Tup(<<U8, d>>) [] c = 17 -> Tup(<<Str, d>>) [] c = 18 -> Tup(<<U8, Str>>) [] c = 19 -> Tup(<<d, Lf("bool"), Str>>)
+    [] c = 20 -> Tup(<<U8, Un("vec", d)>>) [] OTHER -> Un("option", Tup(<<Str, d>>))
 RandDef(k, n, i) ==
   LET r == Rnd3(Seed, 31 * k + 1, i)
       m == (r % 3) + 1
@@ -123,18 +161,22 @@ RandUniverse(k) == LET n == 3 + (Rnd3(Seed, k, 0) % 3) IN Universe([i \in 1 .. n
 
 Universes == <<[name |-> "bookmarks_v2", P |-> UBookmarks], [name |-> "test", P |-> UTest], [name |-> "simple", P |-> USimple],
                [name |-> "nested", P |-> UNested], [name |-> "rec", P |-> URec], [name |-> "mutual", P |-> UMutual],
-               [name |-> "service", P |-> UService], [name |-> "generic", P |-> UGeneric], [name |-> "twoschemas", P |-> UTwoSchemas]>>
+               [name |-> "service", P |-> UService], [name |-> "generic", P |-> UGeneric], [name |-> "twoschemas", P |-> UTwoSchemas],
+               [name |-> "tuples", P |-> UTuples], [name |-> "tuplenest", P |-> UTupNest]>>
              \o [k \in 1 .. NRandU |-> [name |-> "random" \o ToString(k), P |-> RandUniverse(k)]]
 NU == Len(Universes)
 
-RECURSIVE WFT(_)
-WFT(t) == IF t.k \in {"ref"} THEN FALSE ELSE
-          CASE t.k \in Unary \/ t.k = "array" -> WFType(t) /\ WFT(t.a)
-            [] t.k \in {"map", "result"} -> WFType(t) /\ WFT(t.a) /\ WFT(t.b)
-            [] OTHER -> WFType(t)
+\* the tuple arities the driver binds to the real impls of aldrin-core
+RECURSIVE BoundArities(_)
+BoundArities(t) ==
+  CASE t.k \in Unary \/ t.k = "array" -> BoundArities(t.a)
+    [] t.k \in {"map", "result"} -> BoundArities(t.a) /\ BoundArities(t.b)
+    [] t.k = "tuple" -> Len(t.es) \in 1 .. 4 /\ \A i \in 1 .. Len(t.es) : BoundArities(t.es[i])
+    [] OTHER -> TRUE
 ASSUME \A u \in 1 .. NU : LET P == Universes[u].P IN
          /\ WFUniverse(P)
-         /\ \A d \in SeqRange(P.defs) : \A t \in SeqRange(DefRefs(d)) : WFT(t)
+         /\ WFRefs(P)
+         /\ \A d \in SeqRange(P.defs) : \A t \in SeqRange(DefRefs(d)) : BoundArities(t)
          \* every reference resolves inside the universe
          /\ \A d \in SeqRange(P.defs) : \A t \in ReachPlus(P, RefOf(d)) : t.k = "ext" => IsDefRef(P, t)
 
@@ -203,7 +245,7 @@ Next == \/ /\ cs = Start
            /\ cs' \in Cases(cs.u) \ {cs}
 Spec == Init /\ [][Next]_cs
 
-Inv_WF == cs # Start => WFUniverse(PresOf(cs).P)
+Inv_WF == cs # Start => WFUniverse(PresOf(cs).P) /\ WFRefs(PresOf(cs).P)
 
 \* the worklist of compute_from_dyn collects exactly the set of layouts reachable in >= 1 steps,
 \* whatever the declaration order and the order in which references are handed out
